@@ -234,7 +234,7 @@ func selftest(pid, repo, verif string) map[string]any {
 			sem <- struct{}{}
 			defer func() { <-sem }()
 			patch := filepath.Join(verif, "seeded", n, "patch.diff")
-			if strings.HasPrefix(n, "revert-") {
+			if strings.HasPrefix(n, "revert-") || strings.HasPrefix(n, "hand-") {
 				patch = filepath.Join(verif, "mutants", n+".patch")
 			}
 			tmp, err := os.MkdirTemp("", "zapverif-selftest-")
@@ -295,5 +295,70 @@ func selftest(pid, repo, verif string) map[string]any {
 		fmt.Printf("selftest: %d catalogued change(s) were NOT detected on a scratch copy: %v\n", len(missed), missed)
 	}
 	fmt.Printf("selftest %s: %d applied, %d detected, %d skipped\n", pid, len(names)-skipped, detected, skipped)
+	// the behaviour-preserving refactorings catalogued for this property must leave the check quiet
+	refs, _ := filepath.Glob(filepath.Join(verif, "refactors", pid+"-r*", "patch.diff"))
+	sort.Strings(refs)
+	rres := make([]out, len(refs))
+	for i, patch := range refs {
+		wg.Add(1)
+		go func(i int, patch string) {
+			defer wg.Done()
+			sem <- struct{}{}
+			defer func() { <-sem }()
+			n := filepath.Base(filepath.Dir(patch))
+			tmp, err := os.MkdirTemp("", "zapverif-selftest-")
+			if err != nil {
+				rres[i] = out{n, "error: " + err.Error()}
+				return
+			}
+			defer os.RemoveAll(tmp)
+			if err := exec.Command("cp", "-r", repo, filepath.Join(tmp, "repo")).Run(); err != nil {
+				rres[i] = out{n, "error: copy failed"}
+				return
+			}
+			scratch := filepath.Join(tmp, "repo")
+			os.RemoveAll(filepath.Join(scratch, ".git"))
+			ap := exec.Command("git", "apply", patch)
+			ap.Dir = scratch
+			if err := ap.Run(); err != nil {
+				rres[i] = out{n, "skipped: patch does not apply to the current tree"}
+				return
+			}
+			tv := filepath.Join(tmp, "verif")
+			os.MkdirAll(tv, 0o755)
+			kf, _ := os.ReadFile(filepath.Join(verif, "known_findings.json"))
+			os.WriteFile(filepath.Join(tv, "known_findings.json"), kf, 0o644)
+			ch := exec.Command(exe, "check", pid, "--tier", "quick", "--repo", scratch, "--verif", tv)
+			ch.Env = append(os.Environ(), "ZAPVERIF_NO_SELFTEST=1")
+			o, err := ch.CombinedOutput()
+			if err == nil && !strings.Contains(string(o), "VIOLATION property=") {
+				rres[i] = out{n, "quiet"}
+			} else {
+				rres[i] = out{n, "ALARM"}
+			}
+		}(i, patch)
+	}
+	wg.Wait()
+	quiet, rskipped := 0, 0
+	var alarms, rrows []string
+	for _, r := range rres {
+		rrows = append(rrows, r.name+": "+r.status)
+		switch {
+		case r.status == "quiet":
+			quiet++
+		case strings.HasPrefix(r.status, "skipped"):
+			rskipped++
+		default:
+			alarms = append(alarms, r.name)
+		}
+	}
+	res["selftest_refactors_applied"] = len(refs) - rskipped
+	res["selftest_refactors_quiet"] = quiet
+	res["selftest_refactor_alarms"] = alarms
+	res["selftest_refactor_results"] = rrows
+	if len(alarms) > 0 {
+		fmt.Printf("selftest: the check raises an alarm on %d catalogued behaviour-preserving refactoring(s): %v\n", len(alarms), alarms)
+	}
+	fmt.Printf("selftest %s: %d refactorings applied, %d quiet\n", pid, len(refs)-rskipped, quiet)
 	return res
 }
